@@ -1140,6 +1140,11 @@ func init() {
 				if got != (st == 200) {
 					c.violation("C14", fmt.Sprintf("token validation endpoint answered status %d and the session was reported valid=%v (only 200 validates)", st, got),
 						map[string]interface{}{"status": st, "valid": got, "provider": "ProviderData default (validateToken)"})
+					if got {
+						// the stored-session loader honours a session older than the refresh period exactly when this answer is true
+						c.violation("C12", fmt.Sprintf("a session older than the refresh period, of a provider that re-validates with the access token, counts as re-validated although the validation endpoint answered status %d (throttled / unavailable is not \"validated\")", st),
+							map[string]interface{}{"status": st, "provider": "ProviderData default (validateToken)"})
+					}
 				}
 			}
 			vsrv.Close()
